@@ -7,6 +7,8 @@
 package json
 
 import (
+	"strings"
+
 	"github.com/go-json-experiment/json/internal/jsonopts"
 	"github.com/go-json-experiment/json/jsontext"
 )
@@ -280,3 +282,25 @@ func inCutset(c byte, cutset string) bool {
 //@ property C03 C18 C20
 //@ modifies *c
 //@ ensures equal: result == string(b)
+
+// ---------------------------------------------------------------- fields.go
+
+// strEqualFold is strings.EqualFold as an opaque function of its two arguments.
+//
+//@ spec strEqualFold opaque
+func strEqualFold(s, t string) bool { return strings.EqualFold(s, t) }
+
+//@ extern strings.EqualFold(s, t string) (result bool)
+//@ trusted strings: Unicode case-folding equality (pure)
+//@ ensures result == strEqualFold(s, t)
+
+// matchFoldedName (given that the folded names already match): a field takes
+// part in case-insensitive matching iff it is tagged case:ignore, or the caller
+// asked for MatchCaseInsensitiveNames and the field is not tagged case:strict;
+// under MatchCaseSensitiveDelimiter the name must in addition be equal under
+// strings.EqualFold (dashes and underscores are then significant).
+//
+//@ func (*structField).matchFoldedName
+//@ property C15 C20
+//@ requires f != nil && flags != nil
+//@ ensures result == ((f.casing == caseIgnore || (flags.Get(jsonflags.MatchCaseInsensitiveNames) && f.casing != caseStrict)) && (!flags.Get(jsonflags.MatchCaseSensitiveDelimiter) || strEqualFold(string(name), f.name)))
